@@ -64,13 +64,31 @@ namespace mc
             const void* rpc = nullptr;
             const char* rlabel = nullptr;
             std::uint64_t key = 0;
+            const void* wctx[3] = { nullptr, nullptr, nullptr };
+            const void* rctx[3] = { nullptr, nullptr, nullptr };
         };
+        const void* cur_ctx[3] = { nullptr, nullptr, nullptr };
 
         std::vector<Thr*> T;
         std::vector<Obj> O;
         int cur = 0;
         bool active = false;
         bool instr = true;
+        // Set while runtime code runs.  Template code shared with the instrumented harness
+        // (std::vector, std::string ...) may be linked to the *instrumented* instance, so
+        // the runtime's own memory accesses would otherwise be fed back into the detector.
+        thread_local int in_rt = 0;
+        struct RtGuard
+        {
+            RtGuard()
+            {
+                ++in_rt;
+            }
+            ~RtGuard()
+            {
+                --in_rt;
+            }
+        };
         ExecOptions opt;
         std::size_t ppos = 0;
         std::vector<ChoicePoint> cps;
@@ -81,7 +99,23 @@ namespace mc
         std::uint64_t notes_hash = 1469598103934665603ull;
         std::uint64_t extra_hash = 0;
         std::uint64_t shadow_hash = 0;
-        std::unordered_map<std::uintptr_t, Shadow> shadow;
+        // shadow memory: 8-byte granules, each holding the (few) distinct access addresses in it
+        struct Granule
+        {
+            std::vector<std::pair<std::uint8_t, Shadow>> e;
+        };
+        std::unordered_map<std::uintptr_t, Granule> shadow;
+        bool shadow_busy = false;  // re-entrancy guard (operator delete -> forget_range)
+        Shadow& shadow_at(std::uintptr_t a)
+        {
+            Granule& g = shadow[a >> 3];
+            std::uint8_t off = static_cast<std::uint8_t>(a & 7);
+            for (auto& p : g.e)
+                if (p.first == off)
+                    return p.second;
+            g.e.push_back({ off, Shadow() });
+            return g.e.back().second;
+        }
         std::vector<std::string> races;  // distinct descriptions
         std::set<std::string> race_keys;
         std::vector<std::string> trace;
@@ -194,8 +228,13 @@ namespace mc
             {
                 fnv_pod(h, o.val);
                 fnv_pod(h, o.owner);
-                for (int w : o.waiters)
-                    fnv_pod(h, w);
+                {
+                    // arrival order of waiters is not observable (notify_one wakes the lowest id)
+                    std::vector<int> ws(o.waiters);
+                    std::sort(ws.begin(), ws.end());
+                    for (int w : ws)
+                        fnv_pod(h, w);
+                }
                 int sep = -7;
                 fnv_pod(h, sep);
                 fnv(h, o.L.c, sizeof o.L.c);
@@ -378,12 +417,16 @@ namespace mc
             return h;
         }
 
-        void report_race(const char* kind, const Shadow& s, const char* label, const void* pc, const char* olabel, const void* opc)
+        void report_race(const char* kind, const Shadow& s, const char* label, const void* pc, const char* olabel, const void* opc,
+                         const void* const* octx)
         {
-            char buf[256];
-            std::snprintf(buf, sizeof buf, "%s|%s|%p|%s|%p", kind, label ? label : "", pc, olabel ? olabel : "", opc);
+            char buf[512];
+            std::snprintf(buf, sizeof buf, "%s|%s|%p|%s|%p|%p,%p,%p|%p,%p,%p", kind, label ? label : "", pc, olabel ? olabel : "", opc,
+                          cur_ctx[0], cur_ctx[1], cur_ctx[2], octx[0], octx[1], octx[2]);
             (void) s;
-            if (race_keys.insert(buf).second && races.size() < 24)
+            char key[128];
+            std::snprintf(key, sizeof key, "%s|%p|%p|%s|%s", kind, pc, opc, label ? label : "", olabel ? olabel : "");
+            if (race_keys.insert(key).second && races.size() < 24)
                 races.push_back(buf);
         }
     }
@@ -399,7 +442,7 @@ namespace mc
     }
     bool instrumentation_enabled()
     {
-        return active && instr;
+        return active && instr && in_rt == 0;
     }
     void set_instrumentation(bool on)
     {
@@ -408,6 +451,7 @@ namespace mc
 
     int new_object(std::uint64_t initial)
     {
+        RtGuard rt_guard;
         O.emplace_back();
         O.back().val = initial;
         return static_cast<int>(O.size()) - 1;
@@ -415,6 +459,7 @@ namespace mc
 
     std::uint64_t atomic_load(int obj, int mo)
     {
+        RtGuard rt_guard;
         if (!active)
             return O[static_cast<std::size_t>(obj)].val;
         Thr* me = point(K_LOAD, obj);
@@ -425,6 +470,7 @@ namespace mc
     }
     void atomic_store(int obj, std::uint64_t v, int mo)
     {
+        RtGuard rt_guard;
         if (!active)
         {
             O[static_cast<std::size_t>(obj)].val = v;
@@ -443,6 +489,7 @@ namespace mc
     }
     std::uint64_t atomic_rmw_add(int obj, std::int64_t delta, int mo)
     {
+        RtGuard rt_guard;
         if (!active)
         {
             O[static_cast<std::size_t>(obj)].val += static_cast<std::uint64_t>(delta);
@@ -462,6 +509,7 @@ namespace mc
     }
     std::uint64_t atomic_exchange(int obj, std::uint64_t v, int mo)
     {
+        RtGuard rt_guard;
         if (!active)
         {
             std::uint64_t old = O[static_cast<std::size_t>(obj)].val;
@@ -483,6 +531,7 @@ namespace mc
     }
     void mutex_lock(int obj)
     {
+        RtGuard rt_guard;
         if (!active)
             return;
         Thr* me = point(K_LOCK, obj);
@@ -492,6 +541,7 @@ namespace mc
     }
     void mutex_unlock(int obj)
     {
+        RtGuard rt_guard;
         if (!active)
             return;
         Thr* me = point(K_UNLOCK, obj);
@@ -503,6 +553,7 @@ namespace mc
     }
     void cv_wait(int cv, int mtx)
     {
+        RtGuard rt_guard;
         if (!active)
             fail("ASSERT", "condition_variable::wait outside an execution");
         Thr* me = point(K_WAIT, cv, mtx);
@@ -528,6 +579,7 @@ namespace mc
     }
     void cv_notify(int cv, bool all)
     {
+        RtGuard rt_guard;
         if (!active)
             return;
         point(K_NOTIFY, cv);
@@ -540,13 +592,15 @@ namespace mc
         }
         else if (!w.empty())
         {
-            T[static_cast<std::size_t>(w.front())]->notified = true;
-            w.erase(w.begin());
+            auto it = std::min_element(w.begin(), w.end());
+            T[static_cast<std::size_t>(*it)]->notified = true;
+            w.erase(it);
         }
         progress_event();
     }
     int thread_spawn(std::function<void()> body)
     {
+        RtGuard rt_guard;
         if (!active)
             fail("ASSERT", "thread created outside an execution");
         Thr* me = point(K_SPAWN, -1);
@@ -574,6 +628,7 @@ namespace mc
     }
     void thread_join(int tid)
     {
+        RtGuard rt_guard;
         if (!active)
             return;
         Thr* me = point(K_JOIN, tid);
@@ -584,95 +639,121 @@ namespace mc
 
     void data_write(const void* addr, const char* label, const void* pc, std::uint64_t key)
     {
+        RtGuard rt_guard;
         if (!active)
             return;
         Thr* me = T[static_cast<std::size_t>(cur)];
         std::uintptr_t a = reinterpret_cast<std::uintptr_t>(addr);
-        Shadow& s = shadow[a];
+        shadow_busy = true;
+        Shadow& s = shadow_at(a);
+        shadow_busy = false;
         shadow_hash ^= shadow_entry_hash(a, s);
         s.key = key;
         if (s.wt >= 0 && s.wt != me->id && s.wc > me->vc.c[s.wt])
-            report_race("write-after-write", s, label, pc, s.wlabel, s.wpc);
+            report_race("write-after-write", s, label, pc, s.wlabel, s.wpc, s.wctx);
         for (int i = 0; i < MAXT; ++i)
             if (i != me->id && s.r[i] > me->vc.c[i])
             {
-                report_race("write-after-read", s, label, pc, s.rlabel, s.rpc);
+                report_race("write-after-read", s, label, pc, s.rlabel, s.rpc, s.rctx);
                 break;
             }
         s.wt = me->id;
         s.wc = ++me->vc.c[me->id];
         s.wpc = pc;
         s.wlabel = label;
+        s.wctx[0] = cur_ctx[0];
+        s.wctx[1] = cur_ctx[1];
+        s.wctx[2] = cur_ctx[2];
         std::memset(s.r, 0, sizeof s.r);
         shadow_hash ^= shadow_entry_hash(a, s);
     }
     void data_read(const void* addr, const char* label, const void* pc, std::uint64_t key)
     {
+        RtGuard rt_guard;
         if (!active)
             return;
         Thr* me = T[static_cast<std::size_t>(cur)];
         std::uintptr_t a = reinterpret_cast<std::uintptr_t>(addr);
-        Shadow& s = shadow[a];
+        shadow_busy = true;
+        Shadow& s = shadow_at(a);
+        shadow_busy = false;
         shadow_hash ^= shadow_entry_hash(a, s);
         s.key = key;
         if (s.wt >= 0 && s.wt != me->id && s.wc > me->vc.c[s.wt])
-            report_race("read-after-write", s, label, pc, s.wlabel, s.wpc);
+            report_race("read-after-write", s, label, pc, s.wlabel, s.wpc, s.wctx);
         // a read is an event of its own; bump the clock so later writers can be ordered
         s.r[me->id] = ++me->vc.c[me->id];
         s.rpc = pc;
         s.rlabel = label;
+        s.rctx[0] = cur_ctx[0];
+        s.rctx[1] = cur_ctx[1];
+        s.rctx[2] = cur_ctx[2];
         shadow_hash ^= shadow_entry_hash(a, s);
     }
     void forget_range(const void* addr, std::size_t size)
     {
-        if (!active || shadow.empty())
+        RtGuard rt_guard;
+        if (!active || shadow_busy || shadow.empty() || size == 0)
             return;
+        shadow_busy = true;
         std::uintptr_t a = reinterpret_cast<std::uintptr_t>(addr);
-        if (size > 4096)
+        std::uintptr_t g0 = a >> 3, g1 = (a + size - 1) >> 3;
+        auto drop = [&](std::unordered_map<std::uintptr_t, Granule>::iterator it)
+        {
+            for (auto& p : it->second.e)
+                shadow_hash ^= shadow_entry_hash((it->first << 3) + p.first, p.second);
+            return shadow.erase(it);
+        };
+        if (g1 - g0 > shadow.size())
         {
             for (auto it = shadow.begin(); it != shadow.end();)
             {
-                if (it->first >= a && it->first < a + size)
-                {
-                    shadow_hash ^= shadow_entry_hash(it->first, it->second);
-                    it = shadow.erase(it);
-                }
+                if (it->first >= g0 && it->first <= g1)
+                    it = drop(it);
                 else
                     ++it;
             }
-            return;
         }
-        for (std::uintptr_t p = a; p < a + size; ++p)
-        {
-            auto it = shadow.find(p);
-            if (it != shadow.end())
+        else
+            for (std::uintptr_t g = g0; g <= g1; ++g)
             {
-                shadow_hash ^= shadow_entry_hash(it->first, it->second);
-                shadow.erase(it);
+                auto it = shadow.find(g);
+                if (it != shadow.end())
+                    drop(it);
             }
-        }
+        shadow_busy = false;
     }
 
+    void set_call_context(const void* c0, const void* c1, const void* c2)
+    {
+        cur_ctx[0] = c0;
+        cur_ctx[1] = c1;
+        cur_ctx[2] = c2;
+    }
     void note(const std::string& key)
     {
+        RtGuard rt_guard;
         fnv(notes_hash, key.data(), key.size());
         if (opt.trace)
             trace.push_back("-- " + key);
     }
     void hash_extra(const void* p, std::size_t n)
     {
+        RtGuard rt_guard;
         std::uint64_t h = 1469598103934665603ull;
         fnv(h, p, n);
         extra_hash = h;
     }
     void finish_ok()
     {
+        RtGuard rt_guard;
         if (!races.empty())
             emit("RACE", races.front());
         emit("OK", "");
     }
     void fail(const char* verdict, const std::string& detail)
     {
+        RtGuard rt_guard;
         if (outfd < 0)
         {
             std::fprintf(stderr, "mc::fail outside an execution: %s %s\n", verdict, detail.c_str());
